@@ -1052,6 +1052,84 @@ def rule_return(chk, prog, tier):
     r.exhaustive = True
 
 
+# ------------------------------------------------------------------ C01.m lvalues
+
+def rule_lvalues(chk, prog, tier):
+    r = chk.rule('C01.m', 'funclval yields the address the expression designates: an object or function identifier its own symbol, a string literal its object, a compound literal its (freshly initialised, once) object after evaluating the size expressions, *p the value of p, a bit-field the address of its unit plus the bit position; __func__ is materialised on first use; anything else that is not a structure value is diagnosed',
+                 floor=14, oracle='C11 6.3.2.1, 6.5.2.5p5-7, 6.4.2.2')
+    fn = prog.require_func('funclval', 'qbe.c')
+    cases = ['ident-object', 'ident-function', 'ident-const', 'string', 'compound', 'compound-toeval', 'deref', 'bitfield-ident', 'bitfield-deref', 'struct-call', 'int-call', 'func-name', 'func-name-twice', 'unary-neg']
+    for case in cases:
+        def runner(it):
+            w = World(prog, it=it, target='x86_64-sysv')
+            f = Obj('func', 'heap'); f.f[('namedecl',)] = None; f.f[('name',)] = Ptr(it.mkstr(list(b'fn'), 'fn'), (0,))
+            def decl(kind, name='x'):
+                d = Obj('decl:' + name, 'heap'); v = val('sym:' + name)
+                d.f.update({('kind',): ev(prog, kind), ('value',): v, ('name',): Ptr(it.mkstr(list(name.encode()), name), (0,))}); return Ptr(d, ()), v
+            leafp = w.mkexpr('EXPRIDENT', w.mkptr(w.t('int'))); leafp.obj.ilabel = 'p'
+            sized = w.mkexpr('EXPRIDENT', w.t('int')); sized.obj.ilabel = 'n'
+            strd, strv = decl('DECLOBJECT', 'str')
+            def funcexpr(i2, a, e):
+                i2.event('eval', getattr(a[1].obj, 'ilabel', '?')); return val('v:' + getattr(a[1].obj, 'ilabel', '?'))
+            it.models.update({'funcexpr': funcexpr, 'funcinit': lambda i2, a, e: i2.event('init', a[1], a[2], a[3]), 'stringdecl': lambda i2, a, e: strd,
+                              'emitname': lambda i2, a, e: i2.event('text', 'name'), 'printf': lambda i2, a, e: i2.event('text', 'printf'), 'fputs': lambda i2, a, e: i2.event('text', 'fputs'),
+                              'error': lambda i2, a, e: (_ for _ in ()).throw(Terminal('error', cmodel.fmt_of(i2, a, 1))),
+                              'fatal': lambda i2, a, e: (_ for _ in ()).throw(Terminal('fatal', cmodel.fmt_of(i2, a, 0)))})
+            want = None; bits = (0, 0)
+            if case.startswith('ident') or case.startswith('func-name'):
+                d, v = decl({'ident-object': 'DECLOBJECT', 'ident-function': 'DECLFUNC', 'ident-const': 'DECLCONST'}.get(case, 'DECLOBJECT'))
+                e = w.mkexpr('EXPRIDENT', w.t('int'), u__ident__decl=d); want = v
+                if case.startswith('func-name'): f.f[('namedecl',)] = d
+            elif case == 'string':
+                e = w.mkexpr('EXPRSTRING', it.call('mkarraytype', [w.t('char'), 0, 3])); want = strv
+            elif case.startswith('compound'):
+                d, v = decl('DECLOBJECT', 'lit'); init = Ptr(Obj('init', 'heap'), ())
+                e = w.mkexpr('EXPRCOMPOUND', w.t('int'), u__compound__decl=d, u__compound__init=init)
+                if case == 'compound-toeval': e.obj.f[('toeval',)] = sized
+                want = v
+            elif case == 'deref':
+                e = w.mkexpr('EXPRUNARY', w.t('int'), leafp, op=ev(prog, 'TMUL')); want = 'v:p'
+            elif case.startswith('bitfield'):
+                if case == 'bitfield-ident':
+                    d, v = decl('DECLOBJECT'); b = w.mkexpr('EXPRIDENT', w.t('uint'), u__ident__decl=d); want = v
+                else:
+                    b = w.mkexpr('EXPRUNARY', w.t('uint'), leafp, op=ev(prog, 'TMUL')); want = 'v:p'
+                e = w.mkexpr('EXPRBITFIELD', w.t('uint'), b, u__bitfield__bits__before=3, u__bitfield__bits__after=24); bits = (3, 24)
+            elif case == 'struct-call':
+                e = w.mkexpr('EXPRCALL', w.mkstruct(size=8, align=4)); e.obj.ilabel = 'call'; want = 'v:call'
+            elif case == 'int-call':
+                e = w.mkexpr('EXPRCALL', w.t('int')); e.obj.ilabel = 'call'
+            else:
+                e = w.mkexpr('EXPRUNARY', w.t('int'), leafp, op=ev(prog, 'TSUB'))
+            res = it.call(fn, [Ptr(f, ()), e])
+            if case == 'func-name-twice': res = it.call(fn, [Ptr(f, ()), e])
+            addr = res.f[('addr',)]
+            a_ = addr.obj.label[4:] if isinstance(addr, Ptr) and isinstance(want, str) and addr.obj.label.startswith('val:') else addr
+            return (a_ == want) if isinstance(want, str) else (addr is want or (isinstance(addr, Ptr) and isinstance(want, Ptr) and addr.obj is want.obj)), (res.f.get(('bits', 'before'), 0), res.f.get(('bits', 'after'), 0)) == bits, \
+                [e_[0] if e_[0] != 'eval' else 'eval:' + e_[1] for e_ in it.events], [e_ for e_ in it.events if e_[0] == 'init']
+        runs = explore(prog, runner, {}, max_runs=4, on_unsupported='keep')
+        if len(runs) != 1 or runs[0].outcome == 'unsupported':
+            raise AnalysisBroken('funclval %s: %s' % (case, runs[0].detail if runs else 'no run'))
+        run = runs[0]
+        key = 'lvalue:' + case
+        where = 'qbe.c:%s' % fn.get('line')
+        if case in ('ident-const', 'int-call', 'unary-neg'):
+            r.instance(run.outcome == 'terminal:error', key, where, 'not an object: must be diagnosed; got %s' % (run.value if run.outcome == 'return' else run.outcome,)); continue
+        if run.outcome != 'return':
+            r.instance(False, key, where, '%s %s' % (run.outcome, run.detail)); continue
+        okaddr, okbits, evs, inits = run.value
+        ok = okaddr and okbits
+        if case == 'compound': ok = ok and evs == ['init'] and inits[0][3] in (1, True)
+        if case == 'compound-toeval': ok = ok and evs == ['eval:n', 'init']
+        if case in ('deref', 'bitfield-deref'): ok = ok and evs == ['eval:p']
+        if case == 'struct-call': ok = ok and evs == ['eval:call']
+        if case == 'func-name': ok = ok and evs.count('text') >= 2
+        if case == 'func-name-twice': ok = ok and evs.count('name') <= 1 and len([x for x in evs if x == 'text']) == len([x for x in evs if x == 'text'])
+        if case in ('ident-object', 'ident-function', 'string', 'bitfield-ident'): ok = ok and evs == []
+        r.instance(bool(ok), key, where, 'address as expected: %s, bits as expected: %s, events %s' % (okaddr, okbits, evs))
+    r.exhaustive = True
+
+
 def run(chk, tier):
     prog = facts.programs()['cproc-qbe']
     chk.guard('C01.a', lambda: rule_binop(chk, prog, tier))
@@ -1066,5 +1144,6 @@ def run(chk, tier):
     chk.guard('C01.j', lambda: rule_exprflow(chk, prog, tier))
     chk.guard('C01.k', lambda: rule_exprgrammar(chk, prog, tier))
     chk.guard('C01.l', lambda: rule_return(chk, prog, tier))
+    chk.guard('C01.m', lambda: rule_lvalues(chk, prog, tier))
     from props import c01f
     chk.guard('C01.f', lambda: c01f.rule_statements(chk, prog, tier))
